@@ -658,23 +658,53 @@ func (f *Frame) execAppend(c *ssa.CallCommon, args []Val, st *State) Val {
 			return Select(Select(arr, App("s_arr", SInt, add)), App("sl_idx", SInt, add, j))
 		}
 	}
-	// result: new array id (models both in-place growth and reallocation; aliasing with the old array is not relied on)
+	// result: Go's two cases. With spare capacity the old backing array is extended in place (the result aliases it and the
+	// new elements overwrite whatever other slices of that array see beyond len(s)); otherwise a fresh array is allocated.
 	addr := u.newAddr(st, "append")
 	oldLen := App("s_len", SInt, s)
+	oldArrID := App("s_arr", SInt, s)
+	oldOff := App("s_off", SInt, s)
 	newLen := u.defs.Define("applen", App("+", SInt, oldLen, addLen))
+	inPlace := u.defs.Define("appinplace", And(Not(Eq(oldArrID, IntLit(0))), App("<=", SBool, newLen, App("s_cap", SInt, s))))
 	content := u.defs.Fresh("appcontent", ArraySort(SInt, es))
 	u.qctr++
 	q := fmt.Sprintf("q%d_j", u.qctr)
 	qj := Term{q, SInt}
-	oldElem := Select(Select(arr, App("s_arr", SInt, s)), App("sl_idx", SInt, s, qj))
-	fact := fmt.Sprintf("(forall ((%s Int)) (! (and (=> (and (<= 0 %s) (< %s %s)) (= (select %s %s) %s)) (=> (and (<= %s %s) (< %s %s)) (= (select %s %s) %s))) :pattern ((select %s %s))))",
-		q, q, q, oldLen.S, content.S, q, oldElem.S,
-		oldLen.S, q, q, newLen.S, content.S, q, addElem(App("-", SInt, qj, oldLen)).S, content.S, q)
+	oldElem := Select(Select(arr, oldArrID), App("sl_idx", SInt, s, qj))
+	oldAt := Select(Select(arr, oldArrID), qj)
+	lo := u.defs.Define("applo", App("+", SInt, oldOff, oldLen))
+	hi := u.defs.Define("apphi", App("+", SInt, oldOff, newLen))
+	fact := fmt.Sprintf("(forall ((%s Int)) (! (and "+
+		"(=> (and (not %s) (<= 0 %s) (< %s %s)) (= (select %s %s) %s)) "+
+		"(=> (and (not %s) (<= %s %s) (< %s %s)) (= (select %s %s) %s)) "+
+		"(=> (and %s (<= %s %s) (< %s %s)) (= (select %s %s) %s)) "+
+		"(=> (and %s (not (and (<= %s %s) (< %s %s)))) (= (select %s %s) %s))"+
+		") :pattern ((select %s %s))))",
+		q,
+		inPlace.S, q, q, oldLen.S, content.S, q, oldElem.S,
+		inPlace.S, oldLen.S, q, q, newLen.S, content.S, q, addElem(App("-", SInt, qj, oldLen)).S,
+		inPlace.S, lo.S, q, q, hi.S, content.S, q, addElem(App("-", SInt, qj, lo)).S,
+		inPlace.S, lo.S, q, q, hi.S, content.S, q, oldAt.S,
+		content.S, q)
 	u.assume(st, Term{fact, SBool})
-	u.heapSet(st, class, u.defs.Define("H_"+class, Store(arr, addr, content)))
-	capT := u.defs.Fresh("appcap", SInt)
-	u.assume(st, App(">=", SBool, capT, newLen))
-	return Val{T: u.defs.Define("appended", App("mk_slice", SSlice, addr, IntLit(0), newLen, capT))}
+	resArr := u.defs.Define("apparr", Ite(inPlace, oldArrID, addr))
+	resOff := u.defs.Define("appoff", Ite(inPlace, oldOff, IntLit(0)))
+	u.heapSet(st, class, u.defs.Define("H_"+class, Store(arr, resArr, content)))
+	if bt, isB := sl.Elem().Underlying().(*types.Basic); isB && bt.Kind() == types.Uint8 {
+		// byte buffers: the decoded-field view of the result array is unknown (an in-place append may overwrite encoded fields)
+		for _, cls := range sortedKeys(u.classSort) {
+			if !strings.HasPrefix(cls, "Enc.") {
+				continue
+			}
+			srt := u.classSort[cls]
+			ea := u.heapGet(st, cls, srt)
+			u.heapSet(st, cls, u.defs.Define("H_"+cls, Store(ea, resArr, u.defs.Fresh("app_"+cls, arrayValSort(srt)))))
+		}
+	}
+	capF := u.defs.Fresh("appcap", SInt)
+	u.assume(st, App(">=", SBool, capF, newLen))
+	capT := u.defs.Define("appcapr", Ite(inPlace, App("s_cap", SInt, s), capF))
+	return Val{T: u.defs.Define("appended", App("mk_slice", SSlice, resArr, resOff, newLen, capT))}
 }
 
 // ---------------------------------------------------------------------------
